@@ -944,9 +944,9 @@ Proof.
      mkRec 5 true true [mkCall [Some 1; Some 0] true (Some 3)]],
     [[mkRead 3 1 [mkRV 2 0 30]]],
     [mkRec 2 true true [mkCall [Some 0; Some 1] true (Some 3)];
-     mkRec 5 true true [mkCall [Some 0; Some 1] false (Some 3)]],
+     mkRec 5 true true [mkCall [Some 0; Some 1] false None]],
     1%nat, (mkRec 5 true true [mkCall [Some 1; Some 0] true (Some 3)]),
-    (mkRec 5 true true [mkCall [Some 0; Some 1] false (Some 3)]), 0%nat, (mkCall [Some 1; Some 0] true (Some 3)).
+    (mkRec 5 true true [mkCall [Some 0; Some 1] false None]), 0%nat, (mkCall [Some 1; Some 0] true (Some 3)).
   split; [repeat constructor; cbn; intuition; try discriminate|].
   split; [vm_compute; reflexivity|].
   repeat (split; [reflexivity|]).
@@ -1084,16 +1084,16 @@ Proof.
 Qed.
 
 (* -------------------- calls written with `|` that the repaired rule still alters (current /repo) *)
-(* homozygous 1|1:5 is unphased by the shared writer; 0|1 without a PS key comes back as 0|1 with
+(* homozygous 1|1:5 is unphased by the shared writer (and loses its PS value); 0|1 without a PS key comes back as 0|1 with
    PS = 0; a phased call on a record without ALT is unphased *)
 Theorem prephased_unrecognised_refuted :
   (exists out, haplotagphase Fixed default_params [0;1;2;3] [mkRec 2 true true [mkCall [Some 1; Some 1] true (Some 5)]] [[]]
-               = Ok out /\ out = [mkRec 2 true true [mkCall [Some 1; Some 1] false (Some 5)]]) /\
+               = Ok out /\ out = [mkRec 2 true true [mkCall [Some 1; Some 1] false None]]) /\
   (exists out, haplotagphase Fixed default_params [0;1;2;3] [mkRec 2 true false [mkCall [Some 0; Some 1] true None]] [[]]
                = Ok out /\ out = [mkRec 2 true true [mkCall [Some 0; Some 1] true (Some 0)]]) /\
   (exists out, haplotagphase_file Fixed default_params [0;1;2;3] true
                  [mkRec 2 true true [mkCall [Some 0; Some 0] true (Some 5)]] [0] [[]]
-               = Ok out /\ out = [mkRec 2 true true [mkCall [Some 0; Some 0] false (Some 5)]]).
+               = Ok out /\ out = [mkRec 2 true true [mkCall [Some 0; Some 0] false None]]).
 Proof.
   split; [|split]; eexists; (split; [vm_compute; reflexivity|reflexivity]).
 Qed.
